@@ -157,7 +157,11 @@ def run_case(case):
             pairs.append(("lag_hess", tp.lag_hess(z, y).toarray(), R.lag_hess(z, y)))
             for name, got, exp in pairs:
                 # set aside over/underflow of the scaling itself ("absent overflow")
-                raw_bad = _range_bad(np.asarray(exp)[np.asarray(exp) != 0]) if np.size(exp) else False
+                # (the repository scales every stored entry, duplicates separately, the reference scales the
+                # summed entry: both are exact unless a result lands in the subnormal range)
+                ga = np.asarray(got, dtype=float)
+                raw_bad = (_range_bad(np.asarray(exp)[np.asarray(exp) != 0]) if np.size(exp) else False) or \
+                    (_range_bad(ga[ga != 0]) if ga.size else False)
                 if raw_bad or not np.all(np.isfinite(np.asarray(exp, dtype=float))):
                     fpe = True
                     continue
